@@ -190,6 +190,36 @@ def goodRun {σ : Type} (good : σ → AU → Bool) (step : σ → AU → σ × 
 /-- no step of the history is in the F-C22 class (evaluated along the run of the code as written). -/
 def noStaleRun (p : P265) (aus : List AU) : Bool := goodRun (fun p au => !stale265 p au) step265 p aus
 
+/-! ### sub-stream switch of an always-available stream (`subStreamFormat.initialize2`)
+
+Every sub stream that takes over (offline filler, publisher, filler again …) transfers the parameter sets of
+ITS description to the output format by writing them as a unit — provided all of them are present. -/
+
+def subAU264 (d : P264) : Option AU :=
+  match d.sps, d.pps with
+  | some s, some p => some [s, p]
+  | _, _ => none
+
+def subAU265 (d : P265) : Option AU :=
+  match d.vps, d.sps, d.pps with
+  | some v, some s, some p => some [v, s, p]
+  | _, _, _ => none
+
+def switch264 (st d : P264) : P264 × Outcome AU :=
+  match subAU264 d with
+  | some au => step264 st au
+  | none => (st, .ok [])
+
+def switch265 (st d : P265) : P265 × Outcome AU :=
+  match subAU265 d with
+  | some au => step265 st au
+  | none => (st, .ok [])
+
+def switch265Fixed (st d : P265) : P265 × Outcome AU :=
+  match subAU265 d with
+  | some au => step265Fixed st au
+  | none => (st, .ok [])
+
 /-! ### MPEG-4 Video (byte level) -/
 
 def vosSC : Bytes := [0, 0, 1, 0xB0]   -- VisualObjectSequenceStartCode
